@@ -21,6 +21,10 @@ func dispatch(kind string, args []*Sexp) (out *Sexp) {
 	case "toobj", "toobjalt", "toiface", "rtobj", "rtobjalt", "rtgo":
 		return runC20(kind, args)
 	}
+	switch kind {
+	case "binop", "vmbinop", "equal", "nequal", "vmequal", "vmnequal", "unop", "vmunop":
+		return runC15(kind, args)
+	}
 	return L(A("unknown-kind"), A(kind))
 }
 
